@@ -297,6 +297,8 @@ class Explorer:
     # ------------------------------------------------------------------ state construction
     def initial_state(self):
         uni = self.uni
+        rt.STEPS.event = 0
+        rt.STEPS.budget = 10 ** 9
         present = uni.make_present()
         if uni.mode == 'ident' and not uni.inputs:
             strat = E.StrategyTest(self.mod, present)
@@ -442,6 +444,9 @@ class Explorer:
         finally:
             rt.CTX.oracle = None
             rt.CTX.state_hook = None
+            # the per-event budget concerns the event only: monitors' queries afterwards start from zero
+            rt.STEPS.event = 0
+            rt.STEPS.budget = 10 ** 9
         ns.result = result
         ns.sw = self._sw or None
         self.n_events += 1
